@@ -543,14 +543,28 @@ def every_field_recorded(check: Check, repo: Repo, rule: str = "FIELDS-RECORDED"
     loops = [l for l in walk_body(fn) if isinstance(l, ast.For) and "selections" in unparse(l.iter)]
     if len(loops) != 1:
         raise AnalysisError("collect_fields_and_fragment_spreads: loop over the selections not found")
-    arm = next((i for i in loops[0].body if isinstance(i, ast.If) and "FieldNode" in unparse(i.test)), None)
-    if arm is None:
+    arm_body = None
+    arm: ast.AST | None = None
+    for i in loops[0].body:
+        if isinstance(i, ast.If) and "FieldNode" in unparse(i.test):
+            arm, arm_body = i, i.body
+        elif isinstance(i, ast.Match):
+            for case in i.cases:
+                if any(isinstance(p_, ast.MatchClass) and "FieldNode" in unparse(p_.cls) for p_ in ast.walk(case.pattern)):
+                    arm, arm_body = case, case.body
+    if arm_body is None:
         raise AnalysisError("collect_fields_and_fragment_spreads: FieldNode arm not found")
+
+    class _Arm:
+        body = arm_body
+
+    anchor = arm if isinstance(arm, ast.stmt) else loops[0]
+    arm = _Arm  # type: ignore[assignment]
     cfg = CFG(fn)
     appends = [c for s in arm.body for c in ast.walk(s) if isinstance(c, ast.Call) and isinstance(c.func, ast.Attribute) and c.func.attr == "append"
                and "node_and_defs" in unparse(c.func.value)]
     if not appends:
-        check.ob(rule, arm, "FieldNode arm records the field", False, "no append to node_and_defs[...] in the FieldNode arm")
+        check.ob(rule, anchor, "FieldNode arm records the field", False, "no append to node_and_defs[...] in the FieldNode arm")
         return
     goal_avoid = {n for c in appends for n in cfg.node_for_expr(c)}
     head = cfg.nodes_of(loops[0])[0]
